@@ -24,6 +24,15 @@ CLAIM_WAVE4 = ("Also proved (Props/C13_more.v): constructors accept exactly thei
 PROFILES = ["release", "debug"]   # a slice of the sweeps and the boundary arithmetic also run on the debug build
 # <<< a_c13
 
+# >>> s_c13 (wave 6)
+RULE += ("; wave 6 (props/C13_size.py, audit/C13.md 'Size dimensions'): size ladders 0 1 2 3 7 8 9 .. 65535 65536, one dimension at a time: "
+         "total text length (every length 0..40, then the ladder), year digit count 1..25 x sign x zero padding, month/day/hour of 1/2/3 "
+         "digits with and without leading zeros, every hour text 0..30, trailing/leading runs, the plain-integer form at the i32/i64/u64 "
+         "boundaries with zero padding, the text at every offset of a larger buffer, every u8 in each constructor argument, every "
+         "(month, day, hour) of a RawDate x every year width in the three formats and parsed back, add_days offsets over the whole i32 "
+         "ladder from the first/last representable day, days_until over every year distance up to 65535; release and debug builds")
+# <<< s_c13
+
 DPM = [0, 31, 28, 31, 30, 31, 30, 31, 31, 30, 31, 30, 31]
 
 
@@ -271,6 +280,11 @@ def run(ctx):
     from props import C13_more
     C13_more.run_more(ctx)
     # <<< a_c13
+
+    # >>> s_c13 (wave 6): size / boundary ladders (props/C13_size.py)
+    from props import C13_size
+    C13_size.run_size(ctx)
+    # <<< s_c13
 
 
 def search(ctx):
